@@ -4,21 +4,42 @@ From V Require Import lib.Sexp model.TlsVerify.
 Import ListNotations.
 Local Open Scope N_scope.
 
+Definition d_cr (n : N) := match n with 0 => Some CRDefault | 1 => Some CRRequired | 2 => Some CROptional | 3 => Some CRNone | _ => None end.
+Definition d_ah (n : N) := match n with 0 => Some AHUnset | 1 => Some AHFalse | 2 => Some AHName | _ => None end.
+Definition d_fp (n : N) := match n with 0 => Some FPUnset | 1 => Some FPRight | 2 => Some FPWrong | 3 => Some FPBadLength | _ => None end.
+Definition d_cx (n : N) := match n with 0 => Some CtxNone | 1 => Some CtxChecking | 2 => Some CtxNotChecking | 3 => Some CtxPyOpenSSL | _ => None end.
+Definition d_tr (n : N) := match n with 0 => Some TFile | 1 => Some TDir | 2 => Some TData | 3 => Some TNothing | _ => None end.
+Definition d_is (n : N) := match n with 0 => Some IConfigured | 1 => Some ISystem | 2 => Some IUnknown | _ => None end.
+Definition d_be (n : N) := match n with 0 => Some BStd | 1 => Some BPyOpenSSL | _ => None end.
+
+Definition d_route (n : N) (x : sexp) : option route :=
+  match n, x with
+  | 0, SL [] => Some Direct
+  | 1, SL [] => Some TunnelHttp
+  | 2, SL [SN ah; SN fp; SN cx; SN iss; sni; asn] =>
+      match d_ah ah, d_fp fp, d_cx cx, d_is iss, as_bool sni, as_bool asn with
+      | Some ah, Some fp, Some cx, Some iss, Some sni, Some asn => Some (TunnelHttps (mkProxy ah fp cx) (mkPeer iss sni asn))
+      | _, _, _, _, _, _ => None
+      end
+  | _, _ => None
+  end.
+
+(* observation: [request seen; how the call ended (0 normally, 1 SSLError, 3 ValueError, 5 ProxyError around an SSLError);
+   InsecureRequestWarning; [is_verified]; CONNECT seen] *)
 Definition run (c : sexp) : sexp :=
   match c with
-  | SL [SN cr; SN ah; SN fp; SN cx; SN tr; SN iss; sni; asn] =>
-      let cro := match cr with 0 => Some CRDefault | 1 => Some CRRequired | 2 => Some CROptional | 3 => Some CRNone | _ => None end in
-      let aho := match ah with 0 => Some AHUnset | 1 => Some AHFalse | 2 => Some AHName | _ => None end in
-      let fpo := match fp with 0 => Some FPUnset | 1 => Some FPRight | 2 => Some FPWrong | 3 => Some FPBadLength | _ => None end in
-      let cxo := match cx with 0 => Some CtxNone | 1 => Some CtxChecking | 2 => Some CtxNotChecking | _ => None end in
-      let tro := match tr with 0 => Some TFile | 1 => Some TDir | 2 => Some TData | 3 => Some TNothing | _ => None end in
-      let iso := match iss with 0 => Some IConfigured | 1 => Some ISystem | 2 => Some IUnknown | _ => None end in
-      match cro, aho, fpo, cxo, tro, iso, as_bool sni, as_bool asn with
+  | SL [SN cr; SN ah; SN fp; SN cx; SN tr; SN iss; sni; asn; SN be; SN rt; x] =>
+      match d_cr cr, d_ah ah, d_fp fp, d_cx cx, d_tr tr, d_is iss, as_bool sni, as_bool asn with
       | Some cr, Some ah, Some fp, Some cx, Some tr, Some iss, Some sni, Some asn =>
-          match connect (mkSettings cr ah fp cx tr) (mkPeer iss sni asn) with
-          | Sent v w => SL [SN 1; SN 0; s_bool w; SL [s_bool v]]
-          | Refused => SL [SN 0; SN 1; SN 0; SL [SN 0]]
-          | Misconfigured => SL [SN 0; SN 3; SN 0; SL [SN 0]]
+          match d_be be, d_route rt x with
+          | Some b, Some r =>
+              let tunnelled := match r with Direct => false | _ => true end in
+              match connect b (mkSettings cr ah fp cx tr) (mkPeer iss sni asn) r with
+              | Sent v w => SL [SN 1; SN 0; s_bool w; SL [s_bool v]; s_bool tunnelled]
+              | Refused t => SL [SN 0; SN (match r, t with TunnelHttps _ _, false => 5 | _, _ => 1 end); SN 0; SL [SN 0]; s_bool t]
+              | Misconfigured t => SL [SN 0; SN 3; SN 0; SL [SN 0]; s_bool t]
+              end
+          | _, _ => s_bad_case
           end
       | _, _, _, _, _, _, _, _ => s_bad_case
       end
